@@ -1428,6 +1428,8 @@ func TestVerifC07Probes(t *testing.T) {
 		{"func:variadic", sig(true, types.NewSlice(Int)), sig(false, types.NewSlice(Int))},
 		{"chan:dir", types.NewChan(types.SendOnly, Int), types.NewChan(types.SendRecv, Int)},
 		{"chan:dir", types.NewChan(types.RecvOnly, Int), types.NewChan(types.SendRecv, Int)},
+		{"chan:dir", types.NewChan(types.SendOnly, T0), types.NewChan(types.RecvOnly, T0)},
+		{"chan:dir", types.NewChan(types.RecvOnly, types.NewPointer(Int)), types.NewChan(types.SendRecv, types.NewPointer(Int))},
 		{"chan:nesting", types.NewChan(types.SendRecv, types.NewChan(types.RecvOnly, Int)), types.NewChan(types.RecvOnly, types.NewChan(types.SendRecv, Int))},
 		{"array:len", types.NewArray(Int, 1), types.NewArray(Int, 11)},
 		{"basic:kind", Int, Str},
